@@ -95,6 +95,13 @@ func (d *Device) handleKEYEvent(ie *input.InputEvent) {
 func (d *Device) handleABSEvent(ie *input.InputEvent) {
 	analog, analogOk := d.config.KeyMappings[d.mapping].Analog[ie.Source.Name][ie.Event.Code]
 
+	if !analogOk || analog.MappingType != config.AnalogKeySim {
+		// workaround for the case where mapping has been changed while a key emulated by this axis is still active
+		// and new mapping doesn't emulate keys with it (same idea as in handleKEYEvent)
+		d.AnalogNoteOff(fmt.Sprintf("%d", ie.Event.Code), ie)
+		d.AnalogNoteOff(fmt.Sprintf("%d_neg", ie.Event.Code), ie)
+	}
+
 	if !analogOk {
 		if !d.noLogs {
 			log.Info(fmt.Sprintf("Undefined ABS event: %s", ie.Event.String()), d.logFields(
